@@ -13,7 +13,7 @@ const depPkg = "app/dependency"
 
 func init() {
 	register(&PropDef{ID: "C10", Title: "Dependency container: lazy singletons, fixed precedence, safe failure", Rules: rulesC10,
-		Explanation: "Decided (structural necessary conditions, dependency.Provider, all paths): R1 every push on the resolution stack is popped on every path to every return of Get (a failed or optional resolution leaves no name behind); R2 an instance produced by a factory is returned with a nil error only after it was stored in the instance table under the requested name; R3 tables are consulted in the order instances, factories, default factories, each only on the miss edge of the previous; R4 Get freezes the provider (Block) before it reads any table, and every definition method tests the frozen flag before any table write; R5 every store into the instance table of a value taken from a default table is confined to the miss edges of both explicit tables for that name; R6 every definition writes its table only on the miss edge of a lookup of the same name in that table (plus the explicit-table lookups that make explicit win); R7 in InjectTo the optional marker is recomputed for every field (not loop-carried), a failed optional field continues, a failed required field returns the error, and the extra injectors run after the field loop with their error returned; R8 the cycle scan visits the whole resolution stack. " +
+		Explanation: "Decided (structural necessary conditions, dependency.Provider, all paths): R1 every push on the resolution stack is popped - by exactly the pushed slot: stack[:len-1] or stack[:n] with n read before the push - on every path to every return of Get (a failed or optional resolution leaves no name behind); R2 an instance produced by a factory is returned with a nil error only after it was stored in the instance table under the requested name; R3 tables are consulted in the order instances, factories, default factories, each only on the miss edge of the previous; R4 Get freezes the provider (Block) before it reads any table, and every definition method tests the frozen flag before any table write; R5 every store into the instance table of a value taken from a default table is confined to the miss edges of both explicit tables for that name; R6 every definition writes its table only on the miss edge of a lookup of the same name in that table (plus the explicit-table lookups that make explicit win); R7 in InjectTo the optional marker is recomputed for every field (not loop-carried), a failed optional field continues, a failed required field returns the error, and the extra injectors run after the field loop with their error returned; R8 the cycle scan visits the whole resolution stack. " +
 			"Added in round 2: R7 applies the per-field-flag clause to every implementer of app.Injector (datascope.Injector, MapInjector, ...: no branch in the field loop tests a boolean carried over from earlier fields) and requires that no branch taken before Get in Provider.InjectTo depends on provider state (no negative cache); R9 outside package dependency the library defines services only through SetDefault/AddDefaultFactory, never Set/AddFactory (a built-in in an explicit slot cannot be overridden by the application). " +
 			"NOT decided: behaviour of arbitrary user factory graphs (factories are user code), reflection-level type compatibility of injected values.",
 	})
@@ -251,7 +251,7 @@ func rulesC10(c *Ctx) {
 		c.Bad("anchor", "dependency.Provider Get/Block/InjectTo", 0, "anchor not found; cannot certify")
 		return
 	}
-	facts := factsFor(get)
+	_ = factsFor(get)
 	ro := discoverProviderRoles(c)
 	if ro == nil {
 		c.Bad("anchor", "roles of dependency.Provider fields", 0, "cannot discover the instance/factory tables, the frozen flag and the resolution stack from Set/SetDefault/AddFactory/AddDefaultFactory/Block/Get; cannot certify")
@@ -448,18 +448,62 @@ func rulesC10(c *Ctx) {
 	c.Floor("R2", n2, 1)
 
 	// ---- R3 lookup order -----------------------------------------------------------
-	var lks []*ssa.Lookup
-	eachInstr(get, func(_ *ssa.BasicBlock, _ int, in ssa.Instruction) {
-		if lk, ok := in.(*ssa.Lookup); ok && lk.CommaOk {
-			lks = append(lks, lk)
-		}
-	})
-	findAll := func(tbl string) []*ssa.Lookup {
-		var out []*ssa.Lookup
-		for _, lk := range lks {
-			if n, _ := fieldLoadName(lk.X); n == tbl && sameValue(lk.Index, get.Params[1]) {
-				out = append(out, lk)
+	// lookups of the requested name anywhere in Get and its private stages; a lookup in a
+	// stage is on a miss edge if the stage establishes the miss itself or every call of
+	// the stage (up to Get) is made on such an edge
+	type lkSite struct {
+		lk *ssa.Lookup
+		fn *ssa.Function
+	}
+	grpCallers := map[*ssa.Function][]*CallInfo{}
+	grpCallerFn := map[*CallInfo]*ssa.Function{}
+	for _, g := range getGroupList {
+		for _, ci := range Calls(g) {
+			if ci.Static != nil && getGroup[ci.Static] && ci.Static != g {
+				grpCallers[ci.Static] = append(grpCallers[ci.Static], ci)
+				grpCallerFn[ci] = g
 			}
+		}
+	}
+	nameParamOf := func(g *ssa.Function) ssa.Value {
+		if g == get {
+			return get.Params[1]
+		}
+		for _, p := range g.Params {
+			if isNameOfGet(g, p) {
+				return p
+			}
+		}
+		return nil
+	}
+	var liftedMiss func(h *ssa.Function, b *ssa.BasicBlock, table string, depth int) bool
+	liftedMiss = func(h *ssa.Function, b *ssa.BasicBlock, table string, depth int) bool {
+		if key := nameParamOf(h); key != nil && tableMiss(h, factsFor(h), b, table, key) {
+			return true
+		}
+		if h == get || depth > 3 || len(grpCallers[h]) == 0 {
+			return false
+		}
+		for _, ci := range grpCallers[h] {
+			if !liftedMiss(grpCallerFn[ci], ci.Block, table, depth+1) {
+				return false
+			}
+		}
+		return true
+	}
+	findAll := func(tbl string) []lkSite {
+		var out []lkSite
+		for _, g := range getGroupList {
+			g := g
+			eachInstr(g, func(_ *ssa.BasicBlock, _ int, in ssa.Instruction) {
+				lk, ok := in.(*ssa.Lookup)
+				if !ok || !lk.CommaOk {
+					return
+				}
+				if n, _ := fieldLoadName(lk.X); n == tbl && isNameOfGet(g, lk.Index) {
+					out = append(out, lkSite{lk, g})
+				}
+			})
 		}
 		return out
 	}
@@ -470,26 +514,13 @@ func rulesC10(c *Ctx) {
 		// every factory lookup lies on a miss edge of an instance lookup, every default-factory
 		// lookup on miss edges of both (an extra, earlier instance lookup - a fast path - is fine)
 		ok := true
-		li := lis[0]
 		for _, lf := range lfs {
-			okf := false
-			for _, x := range lis {
-				if dominates(x, lf) {
-					okf = true
-				}
-			}
-			ok = ok && okf && tableMiss(get, facts, lf.Block(), ro.inst, get.Params[1])
+			ok = ok && liftedMiss(lf.fn, lf.lk.Block(), ro.inst, 0)
 		}
 		for _, ld := range lds {
-			okd := false
-			for _, x := range lfs {
-				if dominates(x, ld) {
-					okd = true
-				}
-			}
-			ok = ok && okd && tableMiss(get, facts, ld.Block(), ro.inst, get.Params[1]) && tableMiss(get, facts, ld.Block(), ro.fact, get.Params[1])
+			ok = ok && liftedMiss(ld.fn, ld.lk.Block(), ro.inst, 0) && liftedMiss(ld.fn, ld.lk.Block(), ro.fact, 0)
 		}
-		c.Check(ok, "R3", "table lookups in Get", li.Pos(), "instances, then factories on its miss edge, then default factories on both miss edges",
+		c.Check(ok, "R3", "table lookups in Get", lis[0].lk.Pos(), "instances, then factories on its miss edge, then default factories on both miss edges",
 			"the tables are not consulted in the order instances > factories > default factories on miss edges — a default can shadow an explicit definition or an instance is rebuilt")
 	}
 
@@ -666,6 +697,18 @@ func rulesC10(c *Ctx) {
 			}
 		})
 	}
+	// a stage that selects the factory (explicit or default) for Get: what it reads from a
+	// default table can end up in the instance table, so the read itself is confined
+	for _, ld := range lds {
+		if ld.fn == get {
+			continue
+		}
+		n5++
+		con := fmt.Sprintf("read of the default factory table in %s (stage of Get)", fname(ld.fn))
+		c.Check(liftedMiss(ld.fn, ld.lk.Block(), ro.inst, 0) && liftedMiss(ld.fn, ld.lk.Block(), ro.fact, 0), "R5", con, ld.lk.Pos(),
+			"confined to the miss edges of both explicit tables for that name",
+			"the default table is read where the explicit tables have not both missed — AddFactory(n)+AddDefaultFactory(n) resolves n to the default")
+	}
 	c.Floor("R5", n5, 2)
 
 	// ---- R6 duplicates refused / explicit wins at definition time -------------------------------
@@ -813,15 +856,43 @@ func rulesC10(c *Ctx) {
 // loopCoversWhole: the function scans field `field` (a slice) completely:
 // either a range loop, or an index loop whose bounds cover [0, len).
 func loopCoversWhole(f *ssa.Function, field string) string {
+	return loopCoversWholeOf(f, field, func(v ssa.Value) bool { n, _ := fieldLoadName(v); return n == field }, 0)
+}
+
+// loopCoversWholeOf: as loopCoversWhole for the slice recognised by isSlice (the
+// field load, or - in a helper the slice is handed to - the parameter).
+func loopCoversWholeOf(f *ssa.Function, field string, isSlice func(ssa.Value) bool, depth int) string {
+	isLenOfField := func(v ssa.Value, _ string) bool {
+		c, ok := v.(*ssa.Call)
+		if !ok {
+			return false
+		}
+		b, ok := c.Call.Value.(*ssa.Builtin)
+		return ok && b.Name() == "len" && len(c.Call.Args) == 1 && isSlice(c.Call.Args[0])
+	}
 	// find element loads  field[i]
 	var idxs []ssa.Value
 	eachInstr(f, func(_ *ssa.BasicBlock, _ int, in ssa.Instruction) {
 		if ia, ok := in.(*ssa.IndexAddr); ok {
-			if n, _ := fieldLoadName(ia.X); n == field {
+			if isSlice(ia.X) {
 				idxs = append(idxs, ia.Index)
 			}
 		}
 	})
+	if len(idxs) == 0 && depth < 2 {
+		// the slice is handed to a helper that scans it
+		for _, ci := range Calls(f) {
+			if ci.Static == nil || ci.Static.Blocks == nil || ci.Kind != "call" {
+				continue
+			}
+			for i, a := range ci.Common.Args {
+				if isSlice(a) && i < len(ci.Static.Params) {
+					p := ci.Static.Params[i]
+					return loopCoversWholeOf(ci.Static, field, func(v ssa.Value) bool { return v == ssa.Value(p) }, depth+1)
+				}
+			}
+		}
+	}
 	if len(idxs) == 0 {
 		return "no element of " + field + " is read"
 	}
